@@ -35,7 +35,8 @@ def spec_mutants(work):
     for cfg, expect in (("MC_coopnet.cfg", False), ("MC_coopnet_f11.cfg", True),
                         ("MC_coopnet_pq.cfg", False), ("MC_coopnet_pf11.cfg", True),
                         ("MC_coopnet_slow.cfg", False), ("MC_coopnet_sf11.cfg", True),
-                        ("MC_coopnet_top.cfg", False)):
+                        ("MC_coopnet_top.cfg", False), ("MC_coopnet_links.cfg", False),
+                        ("MC_coopnet_lf11.cfg", True)):
         wd = os.path.join(work, cfg)
         shutil.copytree(src, wd)
         rc, out, wall = runner.tlc(wd, "MC_coopnet", cfg=cfg, workers="8")
